@@ -77,6 +77,7 @@ let c06 toks =
         | "K" :: s :: mid :: tl -> step (RtAck (sess s, zi mid)); go tl
         | "P" :: s :: mid :: _tok :: tl -> step (RtAck (sess s, zi mid)); go tl
         | "R" :: s :: mid :: tl -> step (RtRst (sess s, zi mid)); go tl
+        | "N" :: s :: mid :: _code :: tok :: tl -> step (RtNon (sess s, zi mid, bytes_of_tok tok)); go tl
         | "Q" :: tl -> step RtDump; go tl
         | _ -> failwith "c06 event" in
       go evtoks;
